@@ -135,15 +135,16 @@ pub fn framing_spaces(tier: Tier) -> Vec<ByteSpace> {
 }
 
 fn run_bytes(ctx: &mut Ctx, spaces: Vec<ByteSpace>, f: impl Fn(&[u8], &mut Local) + Sync) {
+    super::bytes::placement_bound(ctx);
+    let lim = super::bytes::cross_limit(ctx);
     for sp in spaces {
-        let get = &sp.get;
-        ctx.run_space(&sp.name, sp.len, |idx, l| {
-            let mut buf = Vec::with_capacity(64);
-            get(idx, &mut buf);
+        // the giants (strings of 64 KiB and more) rotate the address residue, see engine::place
+        let lim = if sp.name.contains("giant") { 0 } else { lim };
+        sp.run(ctx, &sp.name, lim, |s, l| {
             l.evals += 1;
             l.states += 1;
-            l.sample(|| hex_short(&buf));
-            f(&buf, l);
+            l.sample(|| hex_short(s));
+            f(s, l);
         });
     }
 }
